@@ -495,7 +495,12 @@ class CombinedCategoricalDissimilarity(AbstractDissimilarity):
         if cat_dissim is None:
             cat_dissim = AbsoluteCategoricalDissimilarity()
 
-        cat_dissim.delta_empty = delta_empty
+        for component in (pos_dissim, cat_dissim):
+            if component.delta_empty != np.float32(delta_empty):
+                # The component's kernel was compiled with its own delta_empty : it is compiled again
+                # so that both forms (d and d_mat) use the delta_empty of the combined dissimilarity.
+                component.delta_empty = np.float32(delta_empty)
+                component.d_mat = component.compile_d_mat()
         self.positional_dissim: AbstractDissimilarity = pos_dissim
         self.categorical_dissim: CategoricalDissimilarity = cat_dissim
         self.alpha = alpha
